@@ -78,6 +78,20 @@ const quotasExp = `quotas:
         gc_interval_sec: 1
 `
 
+// a grouped fixed-window quota on which every few transactions use a group value nobody has used before:
+// the per-group counter is created on first use, by several transactions at once
+const quotasFresh = `quotas:
+  - id: qfg
+    filter:
+      url: fg.com/*
+    strategy:
+      fixed_window:
+        max: 1000
+        interval: 1
+        interval_unit: hour
+        group_by_header: x-fg
+`
+
 const quotasQueue = `quotas:
   - id: qq
     filter:
@@ -363,11 +377,12 @@ func config() sim.Config {
 			"flim.yaml":   limiterFlow("flim", "lim.com", "qfixchild"),
 			"fconc.yaml":  limiterFlow("fconc", "conc.com", "qconc"),
 			"fexp.yaml":   limiterFlow("fexp", "exp.com", "qexp"),
+			"ffg.yaml":    limiterFlow("ffg", "fg.com", "qfg"),
 			"fqueue.yaml": queueFlow,
 			"fretry.yaml": retryFlow,
 			"fprobe.yaml": probeFlow,
 		},
-		Quotas: map[string]string{"qfix.yaml": quotas, "qconc.yaml": quotasConc, "qq.yaml": quotasQueue, "qexp.yaml": quotasExp},
+		Quotas: map[string]string{"qfix.yaml": quotas, "qconc.yaml": quotasConc, "qq.yaml": quotasQueue, "qexp.yaml": quotasExp, "qfg.yaml": quotasFresh},
 	}
 }
 
@@ -381,6 +396,7 @@ type stats struct {
 	noReply                   atomic.Int64
 	selections                atomic.Int64
 	expAdmitted, expAbandoned atomic.Int64
+	freshSent, freshRefused   atomic.Int64
 }
 
 func worker(eng *sim.Engine, round, wk, n int, st *stats, r *sim.Rand) {
@@ -395,6 +411,16 @@ func worker(eng *sim.Engine, round, wk, n int, st *stats, r *sim.Rand) {
 				} else {
 					st.expAbandoned.Add(1)
 				}
+			}
+		}
+		if (wk+i)%3 == 0 { // a group value first used by about ten transactions at the same time; far below its limit
+			fid := id + "-fg"
+			res := eng.SendRequest(sim.Txn{ID: fid, Method: "GET", URL: "fg.com/x", Headers: map[string]string{"x-fg": fmt.Sprintf("g%d-%d", round, i)}})
+			st.freshSent.Add(1)
+			if res.Early() {
+				st.freshRefused.Add(1)
+			} else {
+				eng.SendResponse(sim.Txn{ID: fid, Method: "GET", URL: "fg.com/x", Status: 200})
 			}
 		}
 		switch (wk + i) % 6 {
@@ -668,6 +694,10 @@ func main() {
 			delete(selRan, k)
 		}
 		ctxMu.Unlock()
+		v.Count("fresh_group_transactions", int(st.freshSent.Load()))
+		if n := st.freshRefused.Load(); n > 0 && !noisy {
+			v.Violate("C18/fixed-quota-lost-admissions/first-use-of-a-group", fmt.Sprintf("%d of %d transactions whose group value was first used in this round (about ten at a time, limit 1000 per group) were refused (%s)", n, st.freshSent.Load(), note), note)
+		}
 		if st.noReply.Load() > 0 {
 			v.Violate("C18/probe-actions-lost", fmt.Sprintf("%d probe transactions got no request_headers action back (%s)", st.noReply.Load(), note), note)
 		}
